@@ -13,6 +13,9 @@ from . import rt
 from .rt import CInt
 
 
+FLOOR_BY_FRESH_VAR = False
+
+
 class CRat:
     __slots__ = ("n", "d")
 
@@ -98,7 +101,16 @@ class CRat:
     def floor_term(self):
         if self.concrete:
             return self.n // self.d
-        return self.n / self.d if self.d != 1 else self.n          # z3 Int division: floor for a positive divisor
+        if self.d == 1:
+            return self.n
+        if FLOOR_BY_FRESH_VAR:
+            # k = floor(n / d) as a fresh integer with d*k <= n < d*(k+1): keeps later products free of `div`
+            from ..sx.core import cur
+            ex = cur()
+            k = ex.fresh("floor")
+            ex.add(self.d * k <= self.n, self.n < self.d * (k + 1))
+            return k
+        return self.n / self.d          # z3 Int division: floor for a positive divisor
 
     def to_cint(self, t, mode=None):
         """(int)x: truncation toward zero (value assumed to fit: the harness bounds the inputs)"""
